@@ -251,6 +251,9 @@ def _subs(tier, prop):
             {'k': 'shutdown', 'dev': 'p1', 't': 't0'}, {'k': 'restore', 'dev': 'p1', 't': 't1'}]), mons, zero=['cs'], pre=['t0 <= t1']))
         S.append(mk_sub('F6-fail-restore-n2', _faults_basic(2, [
             {'k': 'fail', 'dev': 'p1', 't': 't0'}, {'k': 'restore', 'dev': 'p1', 't': 't1'}]), mons, zero=['cs'], pre=['t0 <= t1']))
+        S.append(mk_sub('F6-high-priority-shutdown-at-the-finish-instant', _faults_basic(1, [
+            {'k': 'shutdown', 'dev': 'p1', 't': 't0', 'prio': 'high'}, {'k': 'restore', 'dev': 'p1', 't': 't1'}]), mons + ['cycle'], zero=['cs'],
+            pre=['t0 == c0 + c1', 't0 < t1']))
         S.append(mk_sub('F6-shutdown-armfail-restore', _faults_basic(1, [
             {'k': 'shutdown', 'dev': 'p1', 't': 't0'}, {'k': 'armfail', 'dev': 'p1', 't': 't0', 'delay': 'd1'},
             {'k': 'restore', 'dev': 'p1', 't': 't2'}]), mons, zero=['cs'], pre=['t0 + d1 <= t2']))
@@ -309,6 +312,10 @@ def _subs(tier, prop):
         S.append(mk_sub('F5-fail-while-down-holding', with_ops(serial('P', 2, res={'r': 1}) | {'pools': {'r': 1}}, [
             {'k': 'shutdown', 'dev': 'p1', 't': 't0'}, {'k': 'armfail', 'dev': 'p1', 't': 't0', 'delay': 'd1'},
             {'k': 'restore', 'dev': 'p1', 't': 't2'}]), mons, zero=['cs', 'c0'] if q else ['cs'], pre=['t0 + d1 <= t2']))
+        wo = with_ops(serial('P', 1, res={'r': 1}) | {'pools': {'r': 1}}, [{'k': 'workorder', 'dev': 'p1', 't': 't0', 'tag': 'm'}],
+                      maint=True, durs={'m': 'w0'})
+        S.append(mk_sub('F5-work-order-starts-when-the-holder-finishes', wo, mons, zero=['cs'], pre=['t0 == c0 + c1']))
+        S.append(mk_sub('F5-work-order-while-holding', wo, mons, zero=['cs', 'c0']))
         S.append(mk_sub('F5-blocked-processor-offered-a-part', with_ops(resources2(2), [
             {'k': 'block', 'dev': 'p1', 't': 0, 'prio': 'high'}, {'k': 'unblock', 'dev': 'p1', 't': 't0'}]), mons, zero=['cs', 'c0']))
         S.append(mk_sub('F5-waiting-processor-blocked-then-pool-freed', with_ops(two_lines_shared_tool(1, 1), [
@@ -335,6 +342,8 @@ def _subs(tier, prop):
         sch = {'devices': [{'k': 'scheduler', 'name': 'sch', 'durs': ['d0', 'd1', 'd2'], 'states': ['off', 'on', 'off'], 'cyclical': True}],
                'horizons': ['H']}
         S.append(mk_sub('scheduler-off-on-off-cyclical', sch, mons, pre=['H < 2 * (d0 + d1 + d2)'], ranges={'H': (0, 6 * L.T)}))
+        S.append(mk_sub('F5-pool-created-at-run-time', with_ops(resources2(1), [
+            {'k': 'addres', 'res': 'q', 'amount': 'a0', 't': 't0'}]), mons, zero=['cs', 'c0'], ranges={'a0': (1, L.T)}))
         S.append(mk_sub('F5-capacity-change', with_ops(resources2(1), [
             {'k': 'addres', 'res': 'r', 'amount': 'a0', 't': 't0'}]), mons, zero=['cs', 'c0'], ranges={'a0': (-1, L.T)}))
     elif prop == 'C16':
